@@ -19,6 +19,10 @@ CLAIMED = {
   "invariant on every served media segment of the simulated players (DRM systems x locations, PIFF, events, bugs=saio, forged layouts with/without tfdt, sidx, styp, explicit base offset): boxes nest exactly, mdat payload byte-identical to a stored segment, trun data offset designates the first payload byte, sample sizes sum to the payload, senc/trun/saiz sample counts agree and saio designates the first senc entry (waived only under bugs=saio); clients with different options are interleaved and the server restarted",
   "vehicle property: the input quantifier is sampled by swarm configuration; senc internal consistency of stored fixtures is not judged (passed through untouched)",
   TECH + "independent ISO-BMFF reader as response invariant"),
+ "C08": ("exploration",
+  "history layer over HTTP: a simulated clock walks through calendar boundaries (first seconds of days, months, years, leap days, +-1us, +-59.999999 s) and random steps while a player re-fetches a live manifest with a fixed option vector (symbolic and explicit starts with any UTC offset, depth, mup in {absent,<=0,>0}); all inequalities of the statement are evaluated on exact integers from the manifest text, plus the history rules (publishTime never decreases, symbolic start resolves to one instant within a UTC day, `now` stays 60 s behind); direct layer: same arithmetic on DashTiming objects at many more clock phases; restarts interleaved",
+  "sampling; the server's notion of now (clock minus the drift option) is used; publishTime rules are skipped for vendor templates that do not emit the attribute (C05's subject)",
+  TECH + "history oracle on manifest attributes"),
  "C09": ("exploration",
   "seeded search over clock histories (T1, delta sequences across update periods, source loops, day/month boundaries, patch ttl), option vectors, interleaved background clients and server restarts; history oracle over successive manifests plus an independent RFC 5261 patch applier compared with the full manifest fetched at the same simulated instant; patch-of-patched chains",
   "sampling; requests atomic; comparisons that need a common time base are skipped when a symbolic start value resolves to a different availabilityStartTime",
